@@ -440,6 +440,74 @@ theorem nv_C06_within_chain :
     C06_within_disperse cSoil (kern cSoil) hk _ _ _ _ _ _ _ _ _ _ _ _ _ _ _ w
   exact ⟨hk 0 (0, 0), by decide, hd 0, C06_within_spread cSoil _ _ hg hd 0⟩
 
+/-! "Made deterministic" (`specUses` against `usesRun`): a configuration that meets the three extra
+    hypotheses of `C06_deterministic_mode_partial` non-trivially - establishment deterministic with ONE
+    host, movements on with `movement_stochasticity` on, anthropogenic kernel on under deterministic
+    dispersal with a kernel type that is random by definition - and the whole spread action (generate,
+    library kernel, landings, soil release) as the process. -/
+
+def cMix : UseCfg :=
+  { generateStochastic := false, establishmentStochastic := false, hosts := 1, soils := true, useMovements := true,
+    movementStochastic := true, useAnthro := true, dispersalStochastic := false, anthroKernel := .uniform }
+
+theorem spreadAct_model (c : UseCfg) (hinj : c.injectedKernel = none) (w : Nat) :
+    ModelProcess c .spread Nat (spreadAct c w) :=
+  .spread (genAct c) (dispAct c) (fun _ => .generate _ _ _ _ _ _ _ _)
+    (fun _ => .disperse (kern c) (fun _ _ => C06_within_kernel c hinj _ _ _ _ _ _) _ _ _ _ _ _ _ _ _ _ _ _ _ _ _ _) w
+
+/-- `h` of `C06_model_process_within`: the spread action of `cSoil` is a process of the model. -/
+theorem nv_C06_model_process_within : (spreadAct cSoil 0).Within (uses .spread cSoil) :=
+  C06_model_process_within cSoil .spread Nat _ (spreadAct_model cSoil rfl 0)
+
+/-- `hP`, `hm`, `hn` of `C06_unused_seed_run_irrelevant`: weather is outside `usesRun cSoil` (a run that
+    draws from five other streams), the spread action does not depend on its seed. -/
+theorem nv_C06_unused_seed_run_irrelevant :
+    StreamName.weather ∉ usesRun cSoil ∧ StreamName.establishment ∈ usesRun cSoil ∧
+    ((spreadAct cSoil 0).run (.multi (Streams.ofFn fun m => E.seed (m.index + 10)))).1 =
+    ((spreadAct cSoil 0).run (.multi (Streams.ofFn fun m => E.seed (if m = .weather then 77 else m.index + 10)))).1 := by
+  have hn : StreamName.weather ∉ usesRun cSoil := by decide
+  exact ⟨hn, by decide,
+    C06_unused_seed_run_irrelevant E cSoil .spread Nat _ rfl (spreadAct_model cSoil rfl 0) .weather hn (fun m => m.index + 10) 77⟩
+
+/-- All hypotheses of `C06_deterministic_mode_partial` at once, none of them by the trivial disjunct
+    "process off": the establishment seed (deterministic establishment, one host) and the natural
+    dispersal seed (radial kernel under deterministic dispersal) are irrelevant for the spread action,
+    while anthropogenic dispersal, soil and movement stay allowed. -/
+theorem nv_C06_deterministic_mode_partial :
+    StreamName.establishment ∉ specUses cMix ∧ StreamName.naturalDispersal ∉ specUses cMix ∧
+    specUses cMix = [.anthropogenicDispersal, .movement, .soil] ∧
+    ((spreadAct cMix 0).run (.multi (Streams.ofFn fun m => E.seed (m.index + 10)))).1 =
+    ((spreadAct cMix 0).run (.multi (Streams.ofFn fun m => E.seed (if m = .establishment then 77 else m.index + 10)))).1 := by
+  have hn : StreamName.establishment ∉ specUses cMix := by decide
+  exact ⟨hn, by decide, by decide,
+    C06_deterministic_mode_partial E cMix .spread Nat _ rfl (spreadAct_model cMix rfl 0)
+      (.inl (by decide)) (.inr rfl) (.inr (.inr (.inl rfl))) .establishment hn (fun m => m.index + 10) 77⟩
+
+/-- `hu`, `hs` of `C06_code_outside_spec` in each of the three regions, and `hs` of
+    `C06_spec_within_code`. -/
+theorem nv_C06_code_outside_spec :
+    f28Region { establishmentStochastic := false, hosts := 2 } = true ∧
+    f29Region { useMovements := true, movementStochastic := false } = true ∧
+    f32Region { useAnthro := true, dispersalStochastic := false } = true ∧
+    StreamName.movement ∈ usesRun cMix := by
+  have h1 := C06_code_outside_spec { establishmentStochastic := false, hosts := 2 } .establishment (by decide) (by decide)
+  have h2 := C06_code_outside_spec { useMovements := true, movementStochastic := false } .movement (by decide) (by decide)
+  have h3 := C06_code_outside_spec { useAnthro := true, dispersalStochastic := false } .anthropogenicDispersal
+    (by decide) (by decide)
+  refine ⟨?_, ?_, ?_, C06_spec_within_code cMix .movement (by decide)⟩
+  · rcases h1 with ⟨_, h⟩ | ⟨h, _⟩ | ⟨h, _⟩
+    · exact h
+    · cases h
+    · cases h
+  · rcases h2 with ⟨h, _⟩ | ⟨_, h⟩ | ⟨h, _⟩
+    · cases h
+    · exact h
+    · cases h
+  · rcases h3 with ⟨h, _⟩ | ⟨h, _⟩ | ⟨_, h⟩
+    · cases h
+    · cases h
+    · exact h
+
 theorem nv_C06_read_seeds :
     ∃ c', readSeedsVec { randomSeed := 3 } [10, 11, 12, 13, 14, 15, 16, 17, 18, 19] = .ok c' ∧
       c'.randomSeeds.find? "weather" = some 14 ∧
